@@ -2,7 +2,11 @@
    Assumptions.  They are statements about [step] / [run] of Model.v — the very functions the
    correspondence check evaluates against QMI_TcpTransport / QMI_UdpTransport /
    QMI_SerialTransport — for EVERY device oracle (any packetisation, any arrival times), every
-   state, every terminator, byte count and timeout, every call sequence (unbounded).
+   state, every terminator, byte count and timeout, every call sequence (unbounded), and for EVERY
+   kind k: every value of the tuning constants (MIN/MAX_PACKET_SIZE, serial poll interval) and every
+   policy for the choices the property leaves open (Model.pol).  What the correspondence accepts
+   (Model.allowed_step / allowed_outcomes = the behaviour of any policy with the live constants) is
+   covered by C13_allowed_step_sound / C13_allowed_outcomes_sound at the end.
 
    Vocabulary (defined in Proofs.v / ProofsRun.v):
      wf c o        the device is a byte stream (TCP), or every datagram is at most
@@ -17,7 +21,7 @@
      sent s        the byte strings handed to sendall / sendto / Serial.write so far, oldest first
      accepted_writes ops outs   the arguments of the write calls of a run that returned normally *)
 Require Import QV.C13.Model QV.C13.Proofs QV.C13.ProofsSerial QV.C13.ProofsRun QV.C13.ProofsFuel
-               QV.C13.ProofsWrite.
+               QV.C13.ProofsWrite QV.C13.ProofsAllowed.
 
 (* Nothing lost, duplicated or reordered: for every oracle and every call sequence, what the calls
    returned or discarded, in call order, followed by the buffer and the not yet delivered bytes, is
@@ -77,7 +81,7 @@ Print Assumptions C13_timeout_keeps.
    transport whose read_until_timeout slices the buffer (the proposed repair) *)
 Theorem C13_rut_len : forall k s n t s' x b,
   kwf k s -> step k s (OpRut n t) = (s', x) -> o_res x = RBytes b ->
-  match k with Sock c => rut_slice c = true \/ minp c = 0%N | Serial => True end ->
+  match k with Sock c => rut_slice c = true \/ minp c = 0%N | Serial _ => True end ->
   (len b <= n)%N.
 Proof. exact rut_len. Qed.
 Print Assumptions C13_rut_len.
@@ -94,7 +98,8 @@ Print Assumptions C13_rut_len_udp_refuted.
 
 (* A closed transport never touches the device: every call is refused with the state (oracle, clock,
    access log) untouched; the only data a closed transport can still hand out is what read_until
-   finds in the socket buffer, again without any device access.  open of a closed transport works. *)
+   finds in the buffer (policy ru_chk_first = false; pinned sockets do, pinned serial refuses), again
+   without any device access.  open of a closed transport works. *)
 Theorem C13_closed : forall k s o s' x,
   is_open s = false -> step k s o = (s', x) ->
   match o with
@@ -102,7 +107,7 @@ Theorem C13_closed : forall k s o s' x,
   | OpReadUntil tm _ =>
       orc s' = orc s /\ clk s' = clk s /\ pend s' = pend s /\ o_calls x = [] /\
       ((s' = s /\ o_res x = RInvalid) \/
-       (exists c b, k = Sock c /\ o_res x = RBytes b /\ b ++ buf s' = buf s /\ is_open s' = false))
+       (exists b, o_res x = RBytes b /\ b ++ buf s' = buf s /\ is_open s' = false))
   | _ => s' = s /\ o_res x = RInvalid /\ o_dropped x = [] /\ o_calls x = []
   end.
 Proof. exact closed_step. Qed.
@@ -131,8 +136,8 @@ Print Assumptions C13_sock_total.
 
 (* Serial: when the clock never runs backwards the model's fuel always suffices (and that timing
    condition is an invariant of the oracle) *)
-Theorem C13_serial_total : forall s o s' x,
-  Forall ev_dt_ok (orc s) -> step Serial s o = (s', x) ->
+Theorem C13_serial_total : forall sc s o s' x,
+  (0 < tick sc)%Z -> Forall ev_dt_ok (orc s) -> step (Serial sc) s o = (s', x) ->
   Forall ev_dt_ok (orc s') /\ o_res x <> RFuel.
 Proof. exact serial_step_total. Qed.
 Print Assumptions C13_serial_total.
@@ -140,7 +145,8 @@ Print Assumptions C13_serial_total.
 (* All three kinds, whole runs: the out-of-fuel outcome never arises, so every other theorem is a
    statement about real outcomes only *)
 Theorem C13_never_out_of_fuel : forall k o t0 ops s' outs,
-  (forall c, k = Sock c -> wf c o) -> (k = Serial -> Forall ev_dt_ok o) ->
+  (forall c, k = Sock c -> wf c o) ->
+  (forall sc, k = Serial sc -> (0 < tick sc)%Z /\ Forall ev_dt_ok o) ->
   run k (init o t0) ops = (s', outs) -> Forall (fun x => o_res x <> RFuel) outs.
 Proof. exact run_total_init. Qed.
 Print Assumptions C13_never_out_of_fuel.
@@ -158,7 +164,7 @@ Print Assumptions C13_closed_never_writes.
 Theorem C13_write_open : forall k s d s' x,
   is_open s = true -> step k s (OpWrite d) = (s', x) ->
   o_res x = RNone /\ o_dropped x = [] /\
-  o_calls x = match k with Sock _ => [DSetTmo None; DSend d] | Serial => [DSend d] end /\
+  o_calls x = [DSend d] /\
   buf s' = buf s /\ pend s' = pend s /\ orc s' = orc s /\ clk s' = clk s /\ is_open s' = true.
 Proof. exact write_open. Qed.
 Print Assumptions C13_write_open.
@@ -180,6 +186,34 @@ Theorem C13_no_resurrection : forall k o t0 ops s' pre x post,
   firstn (length (returned x)) (skipn (length (concat (map consumed pre))) (stream_of o)) = returned x.
 Proof. exact result_position. Qed.
 Print Assumptions C13_no_resurrection.
+
+(* ---- what the correspondence accepts ------------------------------------------------------- *)
+
+(* the accepted behaviours include the pinned one and range over ALL 64 policies *)
+Theorem C13_allowed_contains_pinned : forall k s ops, allowed_outcomes k s ops (run k s ops).
+Proof. exact allowed_outcomes_pinned. Qed.
+Print Assumptions C13_allowed_contains_pinned.
+
+Theorem C13_allowed_every_policy : forall k p, In (with_pol k p) (variants k).
+Proof. exact variants_with_pol. Qed.
+Print Assumptions C13_allowed_every_policy.
+
+(* every accepted outcome of one call satisfies every per-call clause of C13 (c13_clauses:
+   conservation, exactly n bytes, shortest terminated data, a failed call consumes nothing,
+   read_until_timeout <= n, closed transport untouched, only write sends and exactly its bytes, no
+   data-loss error) *)
+Theorem C13_allowed_step_sound : forall k s o r,
+  kwf k s -> allowed_step k s o r -> c13_clauses k s o r.
+Proof. exact allowed_step_sound. Qed.
+Print Assumptions C13_allowed_step_sound.
+
+(* every accepted outcome of a whole run conserves the stream and the written data *)
+Theorem C13_allowed_outcomes_sound : forall k s ops s' outs,
+  kwf k s -> allowed_outcomes k s ops (s', outs) ->
+  concat (map consumed outs) ++ total s' = total s /\
+  sent s' = sent s ++ accepted_writes ops outs.
+Proof. exact allowed_outcomes_sound. Qed.
+Print Assumptions C13_allowed_outcomes_sound.
 
 (* ------------------------------------------------------------------------------------------ *)
 (* Non-vacuity: concrete runs in which the hypotheses hold and the interesting paths are taken. *)
@@ -203,7 +237,7 @@ Proof. vm_compute. reflexivity. Qed.
 (* serial: same stream, the terminator is completed by the one-byte read loop *)
 Example C13_ex_serial :
   map (fun x => (o_res x, o_calls x))
-      (snd (run Serial (init [Chunk [65;13]%N 0; Chunk [10;66;13;10]%N 3] 0)
+      (snd (run (Serial ser_cfg) (init [Chunk [65;13]%N 0; Chunk [10;66;13;10]%N 3] 0)
                 [OpOpen; OpReadUntil [13;10]%N (Some 100%Z); OpDiscard]))
   = [(RNone, [DOpen]); (RBytes [65;13;10]%N, [DInWaiting; DRead 2; DRead 1]); (RNone, [DReset])].
 Proof. vm_compute. reflexivity. Qed.
@@ -235,10 +269,30 @@ Proof. vm_compute. reflexivity. Qed.
 (* discard between two reads: the second read gets the bytes after the discarded ones *)
 Example C13_ex_discard :
   map (fun x => (o_res x, o_dropped x))
-      (snd (run Serial (init [Chunk [65;66;67]%N 0; Chunk [68;69]%N 0; Chunk [70]%N 0] 0)
+      (snd (run (Serial ser_cfg) (init [Chunk [65;66;67]%N 0; Chunk [68;69]%N 0; Chunk [70]%N 0] 0)
                 [OpOpen; OpRead 1 (Some 50%Z); OpDiscard; OpRead 1 (Some 50%Z)]))
   = [(RNone, []); (RBytes [65]%N, []); (RNone, [66;67;68;69]%N); (RBytes [70]%N, [])].
 Proof. vm_compute. reflexivity. Qed.
 
 Example C13_ex_dt_ok : Forall ev_dt_ok [Chunk [65]%N 0; TimeoutEv 40; Chunk [66]%N 3; Eof].
 Proof. repeat constructor; vm_compute; discriminate. Qed.
+
+(* two allowed outcomes of the same call: the packet completing read(3) arrives one tick after the
+   deadline; the pinned policy raises the timeout and keeps everything, late_read returns the bytes;
+   either way the next call gets the right data *)
+Example C13_ex_late_read :
+  let o := [Chunk [65;66]%N 0; Chunk [67;68]%N 6] in
+  let ops := [OpOpen; OpRead 3 (Some 5%Z); OpRut 9 (Some 0%Z)] in
+  (map o_res (snd (run (Sock tcp_cfg) (init o 0) ops)),
+   map o_res (snd (run (with_pol (Sock tcp_cfg) (mkpol true true false false false false)) (init o 0) ops)))
+  = ([RNone; RTimeout; RBytes [65;66;67;68]%N], [RNone; RBytes [65;66;67]%N; RBytes [68]%N]).
+Proof. vm_compute. reflexivity. Qed.
+
+(* a different chunk size (MAX_PACKET_SIZE 4 instead of 512) changes the recv sizes, not the data *)
+Example C13_ex_chunk_size :
+  let o := [Chunk [65;66;67;68;69;59;70]%N 0] in
+  let ops := [OpOpen; OpReadUntil [59]%N (Some 5%Z); OpRut 9 (Some 0%Z)] in
+  (map o_res (snd (run (Sock (mkcfg true 0 4 true sock_pol)) (init o 0) ops)),
+   map o_res (snd (run (Sock tcp_cfg) (init o 0) ops)))
+  = ([RNone; RBytes [65;66;67;68;69;59]%N; RBytes [70]%N], [RNone; RBytes [65;66;67;68;69;59]%N; RBytes [70]%N]).
+Proof. vm_compute. reflexivity. Qed.
